@@ -49,6 +49,12 @@ func StripHostPort(h string) string {
 		return strings.TrimSuffix(h, ".")
 	}
 
+	// An IPv6 literal without port (e.g. "[::1]", sent for the default port) has nothing to strip. It is returned
+	// unchanged here, as net.SplitHostPort would reject it with an error that is allocated on every request.
+	if h[len(h)-1] == ']' {
+		return h
+	}
+
 	host, _, err := net.SplitHostPort(h)
 	if err != nil {
 		return h // on error, return unchanged
